@@ -17,6 +17,7 @@ Driver requests for L3–L5 (container fragment):
             | (O cst (gc…) <g1> <gd> (<attr>…) (gc…) <g2> <g3> cst)    (select with `or` default)
             | (F1 <name> (gc…) <g1> (gc…) <g2> cst)                   (lambda `x: body`)
             | (U <op> (gc…) <g> cst)                                  (unary operator)
+            | (B cst (gc…) <g1> <op> (gc…) <g2> cst)                  (binary operator)
     item  ::= (c <gap> <text>) | (e <gap> cst)
             | (b <gap> <name> (gc…) <g1> (gc…) <g2> cst (gc…) <g3>)
     gc    ::= (<gap> <text>)
@@ -59,6 +60,8 @@ partial def decCst : SExp → Option Cst
               (← decText g3) (← decCst b))
   | .list [.atom "D", e, .list c1, .atom g1, .atom gd, .list attrs] => do
       pure (.sel (← decCst e) (← decGC c1) (← decText g1) (← decText gd) (← decTexts attrs))
+  | .list [.atom "B", l, .list c1, .atom g1, .atom op, .list c2, .atom g2, r] => do
+      pure (.bin (← decCst l) (← decGC c1) (← decText g1) (← decText op) (← decGC c2) (← decText g2) (← decCst r))
   | .list [.atom "U", .atom op, .list c, .atom g, e] => do
       pure (.un (← decText op) (← decGC c) (← decText g) (← decCst e))
   | .list [.atom "F1", .atom n, .list c1, .atom g1, .list c2, .atom g2, b] => do
@@ -95,6 +98,7 @@ partial def encCst : Cst → SExp
     .list [.atom "K", .atom (if w then "w" else "a"), encGC c1, sText g1, encCst h, encGC c2, sText g2, encGC c3,
       sText g3, encCst b]
   | .sel e c1 g1 gd attrs => .list [.atom "D", encCst e, encGC c1, sText g1, sText gd, .list (attrs.map sText)]
+  | .bin l c1 g1 op c2 g2 r => .list [.atom "B", encCst l, encGC c1, sText g1, sText op, encGC c2, sText g2, encCst r]
   | .un op c g e => .list [.atom "U", sText op, encGC c, sText g, encCst e]
   | .lam n c1 g1 c2 g2 b => .list [.atom "F1", sText n, encGC c1, sText g1, encGC c2, sText g2, encCst b]
   | .selOr e c1 g1 gd attrs c2 g2 g3 d =>
